@@ -197,3 +197,16 @@ MUTANTS["C15"] = [
   ("dot-drop-attrs-of-relations-with-time-only", "prov/dot.py", "            add_attribute_annotation = show_relation_attributes and other_attributes", "            add_attribute_annotation = show_relation_attributes and len(other_attributes) > 1"),
   ("dot-reuse-node-for-known-uri", "prov/dot.py", "        def _add_node(record):\n            count[0] += 1", "        def _add_node(record):\n            if record.identifier.uri in node_map and not record.attributes:\n                return node_map[record.identifier.uri]\n            count[0] += 1"),
 ]
+
+MUTANTS["C11"] = [
+  ("fr-json-drop-membership-expansion", J, "                if membership_extra_members:\n", "                if False:\n"),
+  ("fr-json-multi-formal-takes-first", J, "                                    logger.error(error_msg)\n                                    raise ProvJSONException(error_msg)", "                                    value = values[0]"),
+  ("fr-xml-ignore-xsi-type-on-record", X, '            if _ns_xsi("type") in element.attrib:\n', '            if False:\n'),
+  ("fr-json-ignore-lang", J, '        langtag = literal["lang"] if "lang" in literal else None', '        langtag = None'),
+  ("fr-xml-revert-membership-expansion", X, "                for member in members[1:]:\n                    attributes.remove(member)\n                    extra_members.append(member[1])", "                pass"),
+  ("fr-xml-revert-comment-fix", X, "            if p is not None:\n                # (a comment before or after the root element has no parent)\n                p.remove(c)", "            p.remove(c)"),
+  ("fr-xml-revert-default-ns-datatype", X, '                        subelem.attrib[_ns_xsi("type")] = str(value.datatype)', '                        subelem.attrib[_ns_xsi("type")] = "%s:%s" % (value.datatype.namespace.prefix, value.datatype.localpart)'),
+  ("fr-json-typed-string-number-kept-literal", M, "    XSD_INT: int,\n", ""),
+  ("fr-json-bundle-prefix-not-inherited", J, "        bundle = ProvBundle(document=document)\n", "        bundle = ProvBundle()\n"),
+  ("fr-xml-subtype-type-not-added", X, "            if rec_type != q_prov_name:\n                rec.add_asserted_type(q_prov_name)", "            if False:\n                rec.add_asserted_type(q_prov_name)"),
+]
